@@ -203,10 +203,13 @@ def _ind_grad(case):
 _LINE = re.compile(r"^(\d+)\s+([-+0-9.eE]+|nan|inf)\s+\|\|(.*)$")
 
 
-def _sd_run(case, S, C, charges, mults, alpha, tol, cap, drv=None):
+def _sd_run(case, S, C, charges, mults, alpha, tol, cap, drv=None, reuse_mol=False):
     """one real Geometry_Optimization_SD.run with the onestep recorder -> record dict.
     drv: a dict kept by the caller; when given, the SAME optimiser object (and its settings dictionary) is reused for
-    this run on a fresh Molecule, with alpha / force_tol / max_evl set as attributes (driver-reuse sequences)."""
+    this run, with alpha / force_tol / max_evl set as attributes: on a fresh Molecule (driver-reuse sequences) or, with
+    reuse_mol, on the SAME Molecule object as the previous run (continuation sequences).
+    Both wrappers (onestep, esdriver.forward) pass *args / **kwargs through untouched, so a signature change in the
+    repository cannot blind the recorder; the esdriver wrapper counts the true energy/force evaluations."""
     import contextlib
     import io
     import warnings
@@ -217,36 +220,50 @@ def _sd_run(case, S, C, charges, mults, alpha, tol, cap, drv=None):
 
     ch = charges if len(set(charges)) > 1 else charges[0]
     if drv is not None and drv.get("sd") is not None:
-        from seqm.Molecule import Molecule
-        from seqm.seqm_functions.constants import Constants
-
         sd, st = drv["sd"], drv
-        sp = torch.as_tensor(np.asarray(S), dtype=torch.int64)
-        xyz = run.tens(C).clone()
-        chg = ch if isinstance(ch, (int, float)) else torch.as_tensor(np.asarray(ch), dtype=torch.float64)
-        with run.quiet():
-            mol = Molecule(Constants(), drv["sett"], xyz, sp, chg, 1)  # shares the optimiser's settings dict
+        if reuse_mol:
+            mol = drv["mol"]
+        else:
+            from seqm.Molecule import Molecule
+            from seqm.seqm_functions.constants import Constants
+
+            sp = torch.as_tensor(np.asarray(S), dtype=torch.int64)
+            xyz = run.tens(C).clone()
+            chg = ch if isinstance(ch, (int, float)) else torch.as_tensor(np.asarray(ch), dtype=torch.float64)
+            with run.quiet():
+                mol = Molecule(Constants(), drv["sett"], xyz, sp, chg, 1)  # shares the optimiser's settings dict
         sd.alpha, sd.force_tol, sd.max_evl = alpha, tol, cap
         st["rec"] = []
+        st["mol"] = mol
     else:
         sett = _settings(case)
         with run.quiet():
             mol, _es, sett2 = run.build(S, C, sett, charges=ch, mult=1)
             sd = Geometry_Optimization_SD(sett2, alpha=alpha, force_tol=tol, max_evl=cap)
         st = drv if drv is not None else {}
-        st.update({"sd": sd, "sett": sett2, "rec": []})
+        st.update({"sd": sd, "sett": sett2, "rec": [], "mol": mol, "nes": 0})
         orig = sd.onestep
+        es_forward = sd.esdriver.forward
 
-        def onestep(molecule, learned_parameters=dict()):
+        def counted_forward(*args, **kwargs):
+            st["nes"] = st.get("nes", 0) + 1
+            return es_forward(*args, **kwargs)
+
+        sd.esdriver.forward = counted_forward
+
+        def onestep(*args, **kwargs):
+            molecule = args[0] if args else kwargs.get("molecule")
             xb = molecule.coordinates.detach().clone().numpy()
-            f, e = orig(molecule, learned_parameters=learned_parameters)
+            n0 = st.get("nes", 0)
+            res = orig(*args, **kwargs)
+            f, e = res[0], res[1]
             nc = getattr(sd.esdriver, "notconverged", None)
             dm = getattr(molecule, "dm", None)
             st["rec"].append({"xb": xb, "F": f.detach().clone().numpy(), "E": e.detach().clone().numpy().reshape(-1),
                               "dm": None if dm is None else dm.detach().clone().numpy(),
-                              "xa": molecule.coordinates.detach().clone().numpy(),
+                              "xa": molecule.coordinates.detach().clone().numpy(), "nes": st.get("nes", 0) - n0,
                               "nc": None if nc is None else np.asarray(nc.detach().clone().numpy(), bool).reshape(-1)})
-            return f, e
+            return res
 
         sd.onestep = onestep
     buf = io.StringIO()
@@ -271,6 +288,12 @@ def _judge_basic(count, margin, violate, cells, case, out, S, C0, alpha, tol, ca
             break
     if not all(math.isfinite(x) for x in out["ret"]):
         violate("returned-values-finite", returned=list(out["ret"]))
+    # every reported step (one unit of the cap) is exactly one true energy/force evaluation
+    nes = [r.get("nes") for r in rec]
+    if all(x is not None for x in nes):
+        count("true_evaluations_counted", sum(nes))
+        if any(x != 1 for x in nes):
+            violate("every-reported-step-is-one-true-evaluation", evaluations_per_step=nes[:45])
     # ---- update rule, chain --------------------------------------------------------------------------
     xmax = max(1.0, float(np.abs(C0[real]).max()))
     for i, r in enumerate(rec):
@@ -379,6 +402,79 @@ def _judge_basic(count, margin, violate, cells, case, out, S, C0, alpha, tol, ca
                 break
     return {"n": n, "m": m, "E": E, "by_criterion": by_criterion, "by_cap": by_cap, "tie": tie, "rF": rF, "rE": rE,
             "text": text}
+
+
+def _fresh_force(count, margin, violate, cells, case, S, ch, rec, idx):
+    """recorded (F, E) of the evaluations idx vs independent single points at the recorded coordinates"""
+    from vlib import run
+
+    nmol = S.shape[0]
+    real = S > 0
+    eps_eff, A = _eps_eff(case), _amp(case)
+    # ---- independent single points at recorded x_i ------------------------------------------------------
+    # C04's force bound is 2e3 eps_eff A; here the SCF is restarted from the density of the previous geometry at every
+    # evaluation (fixed mixing measured at 0.24 of that bound), so 5x that allowance keeps the margin >= 5x while a stale
+    # or sign-flipped force is >= 1e-3 eV/A
+    tolF = 1e4 * (eps_eff + EPS_REF) * A + 1e-9
+    if case.get("dispersion"):
+        # back-propagated vs analytical force of the same energy (measured 2e-8 eV/A on the methane dimer; the dispersion
+        # force itself is 1e-3..1e-2 eV/A there)
+        tolF = max(tolF, TOL_F_CROSS)
+        cells.add("dispersion/AM1-FS1/independent-force-by-%s" % _ind_grad(case))
+    tolE = 100 * (eps_eff + EPS_REF) * A + 1e-9  # C04's 20 eps_eff A, same x5 allowance (SP2 at its 1e-7 floor: 6.7 eps_eff seen)
+    # The independent evaluation is a cold start, so it may land on ANOTHER self-consistent solution than the warm-started
+    # run (seen: MNDO PH3, cold Pulay converges, flagged converged, to a state 37 eV above the one every other solver and
+    # the optimiser find).  That is C03/C04 territory, not a stale force: a row passes when the recorded (E, F) equal those
+    # of SOME cold-started solver at the recorded x_i; the alternates are only run for rows the first one does not match.
+    # Last resort (seen: AM1 H2S, the run's own first cold Pulay lands on a state 14 eV above the ground SCF solution
+    # and the optimiser then follows it by density reuse, so NO cold start reproduces it): a fresh Molecule + driver at
+    # x_i started from the density the run had at that evaluation.  Still a single point at the recorded geometry,
+    # outside the optimiser: a stale / sign-flipped / wrong-geometry force cannot match it.
+    def cold_solvers(i):
+        yield "pulay", run.settings(case["method"], eps=EPS_REF, converger=(2,), grad=_ind_grad(case), extra=_X(case)), None
+        yield "adaptive", run.settings(case["method"], eps=EPS_REF, converger=(1,), grad=_ind_grad(case), extra=_X(case)), None
+        yield "mix0.3", run.settings(case["method"], eps=EPS_REF, converger=(0, 0.3), grad=_ind_grad(case), extra=_X(case)), None
+        if rec[i].get("dm") is not None:
+            warm = _settings(dict(case, grad=_ind_grad(case)))  # the run's own solver (another may leave the run's state)
+            warm["scf_eps"] = EPS_REF
+            yield "warm-from-recorded-density", warm, rec[i]["dm"]
+
+    for i in idx:
+        best = [(float("inf"), float("inf"), None)] * nmol
+        ran = 0
+        for sname, sett, P0 in cold_solvers(i):
+            if all(bf <= tolF and be <= tolE for bf, be, _ in best):
+                break
+            sp = run.single_point(S, rec[i]["xb"], sett, charges=ch, mult=1, P0=P0)
+            ran += 1
+            ncv = sp["notconverged"]
+            for k in range(nmol):
+                if ncv is not None and bool(np.asarray(ncv).reshape(-1)[k]):
+                    continue
+                dFk = float(np.abs(sp["force"][k] - rec[i]["F"][k])[real[k]].max())
+                dEk = float(abs(sp["Etot"].reshape(-1)[k] - rec[i]["E"][k]))
+                if max(dFk / tolF, dEk / tolE) < max(best[k][0] / tolF, best[k][1] / tolE):
+                    best[k] = (dFk, dEk, sname)
+        if ran > 1:
+            count("independent_alternate_cold_solver_runs", ran - 1)
+        if any(bs is None for _, _, bs in best):
+            count("independent_single_point_not_converged")
+            continue
+        count("independent_single_points")
+        if any(bs != "pulay" for _, _, bs in best):
+            count("cold_pulay_found_another_scf_solution")
+        if any(bs == "warm-from-recorded-density" for _, _, bs in best):
+            count("run_follows_a_solution_no_cold_start_finds")
+        dF = max(bf for bf, _, _ in best)
+        dE = max(be for _, be, _ in best)
+        if margin("force_vs_independent_single_point", dF, tolF):
+            violate("force-is-that-of-the-recorded-geometry", evaluation=i + 1, max_diff=dF, bound=tolF,
+                    max_force=float(np.abs(rec[i]["F"]).max()), matched_solver=[bs for _, _, bs in best],
+                    vs_previous_geometry=None if i == 0 else float(np.abs(
+                        run.single_point(S, rec[i - 1]["xb"], _settings(case, cold=True), charges=ch, mult=1)["force"] - rec[i]["F"])[real].max()))
+        if margin("energy_vs_independent_single_point", dE, tolE):
+            violate("energy-is-that-of-the-recorded-geometry", evaluation=i + 1, max_diff=dE, bound=tolE,
+                    matched_solver=[bs for _, _, bs in best])
 
 
 def _run_reuse(case):
@@ -493,69 +589,7 @@ def run_case(case):
     m, E, by_criterion, by_cap, tie, rF, rE, text = (jb[k] for k in ("m", "E", "by_criterion", "by_cap", "tie", "rF", "rE", "text"))
     # ---- independent single points at recorded x_i ------------------------------------------------------
     idx = list(range(n)) if n <= 8 else sorted(set([0, 1, 2, n - 3, n - 2, n - 1] + [int(i) for i in np.random.default_rng(case["geom_seed"] + 1).choice(n, 3, replace=False)]))
-    # C04's force bound is 2e3 eps_eff A; here the SCF is restarted from the density of the previous geometry at every
-    # evaluation (fixed mixing measured at 0.24 of that bound), so 5x that allowance keeps the margin >= 5x while a stale
-    # or sign-flipped force is >= 1e-3 eV/A
-    tolF = 1e4 * (eps_eff + EPS_REF) * A + 1e-9
-    if case.get("dispersion"):
-        # back-propagated vs analytical force of the same energy (measured 2e-8 eV/A on the methane dimer; the dispersion
-        # force itself is 1e-3..1e-2 eV/A there)
-        tolF = max(tolF, TOL_F_CROSS)
-        cells.add("dispersion/AM1-FS1/independent-force-by-%s" % _ind_grad(case))
-    tolE = 100 * (eps_eff + EPS_REF) * A + 1e-9  # C04's 20 eps_eff A, same x5 allowance (SP2 at its 1e-7 floor: 6.7 eps_eff seen)
-    # The independent evaluation is a cold start, so it may land on ANOTHER self-consistent solution than the warm-started
-    # run (seen: MNDO PH3, cold Pulay converges, flagged converged, to a state 37 eV above the one every other solver and
-    # the optimiser find).  That is C03/C04 territory, not a stale force: a row passes when the recorded (E, F) equal those
-    # of SOME cold-started solver at the recorded x_i; the alternates are only run for rows the first one does not match.
-    # Last resort (seen: AM1 H2S, the run's own first cold Pulay lands on a state 14 eV above the ground SCF solution
-    # and the optimiser then follows it by density reuse, so NO cold start reproduces it): a fresh Molecule + driver at
-    # x_i started from the density the run had at that evaluation.  Still a single point at the recorded geometry,
-    # outside the optimiser: a stale / sign-flipped / wrong-geometry force cannot match it.
-    def cold_solvers(i):
-        yield "pulay", run.settings(case["method"], eps=EPS_REF, converger=(2,), grad=_ind_grad(case), extra=_X(case)), None
-        yield "adaptive", run.settings(case["method"], eps=EPS_REF, converger=(1,), grad=_ind_grad(case), extra=_X(case)), None
-        yield "mix0.3", run.settings(case["method"], eps=EPS_REF, converger=(0, 0.3), grad=_ind_grad(case), extra=_X(case)), None
-        if rec[i].get("dm") is not None:
-            warm = _settings(dict(case, grad=_ind_grad(case)))  # the run's own solver (another may leave the run's state)
-            warm["scf_eps"] = EPS_REF
-            yield "warm-from-recorded-density", warm, rec[i]["dm"]
-
-    for i in idx:
-        best = [(float("inf"), float("inf"), None)] * nmol
-        ran = 0
-        for sname, sett, P0 in cold_solvers(i):
-            if all(bf <= tolF and be <= tolE for bf, be, _ in best):
-                break
-            sp = run.single_point(S, rec[i]["xb"], sett, charges=ch, mult=1, P0=P0)
-            ran += 1
-            ncv = sp["notconverged"]
-            for k in range(nmol):
-                if ncv is not None and bool(np.asarray(ncv).reshape(-1)[k]):
-                    continue
-                dFk = float(np.abs(sp["force"][k] - rec[i]["F"][k])[real[k]].max())
-                dEk = float(abs(sp["Etot"].reshape(-1)[k] - rec[i]["E"][k]))
-                if max(dFk / tolF, dEk / tolE) < max(best[k][0] / tolF, best[k][1] / tolE):
-                    best[k] = (dFk, dEk, sname)
-        if ran > 1:
-            count("independent_alternate_cold_solver_runs", ran - 1)
-        if any(bs is None for _, _, bs in best):
-            count("independent_single_point_not_converged")
-            continue
-        count("independent_single_points")
-        if any(bs != "pulay" for _, _, bs in best):
-            count("cold_pulay_found_another_scf_solution")
-        if any(bs == "warm-from-recorded-density" for _, _, bs in best):
-            count("run_follows_a_solution_no_cold_start_finds")
-        dF = max(bf for bf, _, _ in best)
-        dE = max(be for _, be, _ in best)
-        if margin("force_vs_independent_single_point", dF, tolF):
-            violate("force-is-that-of-the-recorded-geometry", evaluation=i + 1, max_diff=dF, bound=tolF,
-                    max_force=float(np.abs(rec[i]["F"]).max()), matched_solver=[bs for _, _, bs in best],
-                    vs_previous_geometry=None if i == 0 else float(np.abs(
-                        run.single_point(S, rec[i - 1]["xb"], _settings(case, cold=True), charges=ch, mult=1)["force"] - rec[i]["F"])[real].max()))
-        if margin("energy_vs_independent_single_point", dE, tolE):
-            violate("energy-is-that-of-the-recorded-geometry", evaluation=i + 1, max_diff=dE, bound=tolE,
-                    matched_solver=[bs for _, _, bs in best])
+    _fresh_force(count, margin, violate, cells, case, S, ch, rec, idx)
     # ---- row alone vs in batch --------------------------------------------------------------------------------------------
     if nmol > 1:
         for k in range(nmol):
